@@ -143,7 +143,7 @@ class Obs:
 
 
 def run(c, schema, doc, sites, fault, early, *, early_bound=True, variables=None, stop=None, abort_reason=None, max_pull_after_stop=12,
-        settle_after=False):
+        settle_after=False, data=None):
     """stop: None or one of 'aclose' | 'abort' - the explorer may insert it at any choice point (cost 0; exactly one)."""
     from graphql import ExecutionResult
     from graphql.execution import AbortedGraphQLExecutionError, ExecutionHooks, experimental_execute_incrementally
@@ -159,7 +159,7 @@ def run(c, schema, doc, sites, fault, early, *, early_bound=True, variables=None
     obs.exc = None
     obs.result_kind = None
     obs.pulls_after_stop = 0
-    root, objs = users(fault)
+    root, objs = data(fault) if data is not None else users(fault)
     with World() as w:
         gate_sites(w, objs, sites, obs.closes)
         ctl = AbortController() if stop == "abort" else None
